@@ -8,7 +8,7 @@ SQLite files through the logging / fault-injecting / schedulable proxy connectio
 Every run becomes a `mig_case` term; coq/mig/Corr/Corr.v recomputes all observables with the model inside
 Coq (`Eval vm_compute in bad.`).  The oracles O-C09 / O-C10 / O-C11 below look only at what the
 implementation did."""
-import glob, hashlib, json, os, random, re, shutil, time
+import fcntl, glob, hashlib, json, os, random, re, shutil, time
 import vflib
 from vflib import ROOT, CACHE
 
@@ -17,6 +17,20 @@ CORPUS = os.path.join(ROOT, "corpus", "mig")
 HARNESS = os.path.join(ROOT, "harness_mig")
 VARIANTS = {0: "", 1: "verbose", 2: "version_table", 3: "version_table+verbose"}
 _memo = {}
+
+
+class MigLock:
+    """K-mig shares one build directory and one cache: concurrent check invocations take turns."""
+
+    def __enter__(self):
+        os.makedirs(MIG, exist_ok=True)
+        self.f = open(os.path.join(MIG, "lock"), "w")
+        fcntl.flock(self.f, fcntl.LOCK_EX)
+        return self
+
+    def __exit__(self, *a):
+        fcntl.flock(self.f, fcntl.LOCK_UN)
+        self.f.close()
 
 
 # ------------------------------------------------------------------------------------------ hashing / building
@@ -56,6 +70,7 @@ def build_case(hdir):
     bdir = os.path.join(MIG, "bin", key)
     binp = os.path.join(bdir, "migcase")
     if os.path.exists(binp):
+        os.utime(bdir, None)
         return binp, "", 0.0, True, key
     t0 = time.time()
     bd = os.path.join(MIG, "build", "case")
@@ -87,7 +102,7 @@ def build_case(hdir):
 
 def run_bin(binp, spec, tag):
     """run the case binary on a spec; -> output dict or None (process died)"""
-    d = os.path.join(MIG, "io")
+    d = os.path.join(spec["work"], "_io")
     os.makedirs(d, exist_ok=True)
     sp, op = os.path.join(d, tag + ".spec.json"), os.path.join(d, tag + ".out.json")
     if os.path.exists(op):
@@ -502,19 +517,28 @@ def run_mig(tier, seed):
         res = json.load(open(done))
         res["cached"] = True
         return res
-    for old in glob.glob(os.path.join(MIG, "run", "*")):
+    with MigLock():
+        return run_mig_locked(tier, seed, key, d, done, t0)
+
+
+def run_mig_locked(tier, seed, key, d, done, t0):
+    if os.path.exists(done):            # somebody else produced it while we waited
+        res = json.load(open(done))
+        res["cached"] = True
+        return res
+    for old in glob.glob(os.path.join(MIG, "run", "*_%s_%s" % (tier, seed))):
         shutil.rmtree(old, ignore_errors=True)
     os.makedirs(d)
     work = os.path.join(d, "work")
     hdirs = history_dirs(tier, seed)
     built = [build_case(hd) for hd in hdirs]          # sequential: one shared build directory
-    used = {b[4] for b in built}
     from concurrent.futures import ThreadPoolExecutor
     with ThreadPoolExecutor(max_workers=8) as ex:
         hist = list(ex.map(lambda a: run_history(a[0], tier, seed, work, a[1]), zip(hdirs, built)))
-    for b in glob.glob(os.path.join(MIG, "bin", "*")):
-        if os.path.basename(b) not in used:
-            shutil.rmtree(b, ignore_errors=True)
+    # keep the binary cache bounded: the 40 most recently used
+    bins = sorted(glob.glob(os.path.join(MIG, "bin", "*")), key=os.path.getmtime, reverse=True)
+    for b in bins[40:]:
+        shutil.rmtree(b, ignore_errors=True)
     shutil.rmtree(work, ignore_errors=True)
     # one Coq shard per history
     descr, shard_of = [], {}
@@ -791,7 +815,8 @@ def mig_check(prop, tier, seed, assumptions):
         "modelled, not verified: SQLite beyond the lock rules of Model/Sqlite.v (rollback-journal mode, busy_timeout 0, no cache spill to EXCLUSIVE), user statements are opaque and assumed to succeed unless a fault is injected; sqlx/sea-orm pooling (one connection per instance), tokio scheduling replaced by the harness scheduler",
         "engine catalogs come from the real engine: the model only predicts WHICH statement list is committed; the catalog of a statement list is read from libsqlite3 by direct execution",
     ]
-    vflib.proof_stage(chk, "mig", prop)
+    with MigLock():      # the three mig checks share coq/mig: never two `make` at once
+        vflib.proof_stage(chk, "mig", prop)
     res = run_mig(tier, seed)
     if "build_error" in res or "coq_error" in res:
         rp = vflib.write_replay(prop, "correspondence:build", {"log": res.get("build_error") or res.get("coq_error")})
@@ -912,7 +937,8 @@ def mig_replay(prop, path):
         open(os.path.join(hd, rel), "w").write(txt)
     os.makedirs(os.path.join(hd, "models"), exist_ok=True)
     vflib.build_harness("migrt", ws="harness_mig")
-    binp, log, dt, cached, key = build_case(hd)
+    with MigLock():
+        binp, log, dt, cached, key = build_case(hd)
     if binp is None:
         print("case crate does not compile:\n" + log[-2000:])
         print("VIOLATION property=%s replay=%s" % (prop, path))
